@@ -62,7 +62,7 @@ def extreme_class(ex: Exception):
     if isinstance(ex, OverflowError):
         return "constant-overflow"
     if isinstance(ex, NameError) and ("'inf'" in msg or "'nan'" in msg or "'zoo'" in msg):
-        return "constant-overflow"
+        return "bare-inf-name"          # repaired (fix d2e732b); not a listed finding any more
     return None
 
 
